@@ -17,8 +17,13 @@ import CotengraVerif.Model.Net
   The `path` component `(*ipath, *jpath, (subgraph_i, subgraph_j))` is kept as the binary tree it
   denotes (`Entry.tree`); `bitpath` prints it back in the code's format (post-order).
 
-  Scores are naturals: `flops/max/size/write` are python ints; for `combo`/`limit` the code uses a
-  float `factor` (64.0 or the parsed integer) -- exact below 2^53, which is the stated guard.
+  Scores are naturals: `flops/max/size/write` are python ints. For `combo`/`limit` the code uses a
+  float `factor` (64 or the parsed decimal, e.g. "combo-0.5", "limit-64.25"). A factor `num/den` is
+  modelled with every score **scaled by `den`**: step cost `den·flops + num·size` resp.
+  `max(den·flops, num·size)`, and the caller scales the initial `cost_cap` by `den` as well. Since
+  the loop only adds scores, compares them with the cap, and doubles the cap, the scaled run takes
+  exactly the branches of the unscaled one (`x > c ⇔ den·x > den·c`); `den = 1` is the literal
+  code for an integer factor. Float arithmetic is assumed exact (dyadic factors, values < 2^53).
 
   Core Lean only (the compiled driver links this file).
 -/
@@ -28,8 +33,8 @@ namespace DP
 /-- the objectives accepted by `parse_minimize_for_optimal` (:268-309). -/
 inductive Objective where
   | flops | max | size | write
-  | combo (factor : Nat)
-  | limit (factor : Nat)
+  | combo (num den : Nat)     -- flops + (num/den)·write, scaled by den
+  | limit (num den : Nat)     -- max(flops, (num/den)·write) per step, scaled by den
 deriving Repr, DecidableEq, Inhabited
 
 /-! ## `compute_con_cost_*`: each loops over `temp_legs` backwards (`foldr` visits the last
@@ -71,14 +76,14 @@ def scanBoth (g : Net) (temp : Legs) : Legs × Nat × Nat :=
     ([], 1, 1)
 
 /-- `compute_con_cost_combo` (:205-232) -/
-def conCostCombo (g : Net) (factor : Nat) (temp : Legs) (iscore jscore : Nat) : Legs × Nat :=
+def conCostCombo (g : Net) (num den : Nat) (temp : Legs) (iscore jscore : Nat) : Legs × Nat :=
   let r := scanBoth g temp
-  (r.1, iscore + jscore + (r.2.1 + factor * r.2.2))
+  (r.1, iscore + jscore + (den * r.2.1 + num * r.2.2))
 
 /-- `compute_con_cost_limit` (:235-265) -/
-def conCostLimit (g : Net) (factor : Nat) (temp : Legs) (iscore jscore : Nat) : Legs × Nat :=
+def conCostLimit (g : Net) (num den : Nat) (temp : Legs) (iscore jscore : Nat) : Legs × Nat :=
   let r := scanBoth g temp
-  (r.1, iscore + jscore + Nat.max r.2.1 (factor * r.2.2))
+  (r.1, iscore + jscore + Nat.max (den * r.2.1) (num * r.2.2))
 
 /-- `compute_con_cost = parse_minimize_for_optimal(minimize)` -/
 def conCost (g : Net) : Objective → Legs → Nat → Nat → Legs × Nat
@@ -86,8 +91,8 @@ def conCost (g : Net) : Objective → Legs → Nat → Nat → Legs × Nat
   | .max => conCostMax g
   | .size => conCostSize g
   | .write => conCostWrite g
-  | .combo f => conCostCombo g f
-  | .limit f => conCostLimit g f
+  | .combo p q => conCostCombo g p q
+  | .limit p q => conCostLimit g p q
 
 /-! ## legs of the processor's nodes -/
 
@@ -247,8 +252,8 @@ def combine : Objective → Nat → Nat → Nat → Nat → Nat
   | .max, a, b, F, _ => Nat.max (Nat.max a b) F
   | .size, a, b, _, S => Nat.max (Nat.max a b) S
   | .write, a, b, _, S => a + b + S
-  | .combo f, a, b, F, S => a + b + (F + f * S)
-  | .limit f, a, b, F, S => a + b + Nat.max F (f * S)
+  | .combo p q, a, b, F, S => a + b + (q * F + p * S)
+  | .limit p q, a, b, F, S => a + b + Nat.max (q * F) (p * S)
 
 def modelTreeCost (g : Net) (obj : Objective) : BT → Nat
   | .leaf _ => 0
